@@ -2,8 +2,9 @@
 // library only (go/ast, go/parser), re-run against /repo's working tree on every check. It writes
 // lean/Scalibr/Gen/Purl.lean (stale copy deleted first) with
 //
-//   - typeConsts : the purl type constants of purl/purl.go (the const block that holds validType's keys)
-//   - validTypes : the VALUES of the keys of the map literal inside purl.validType, as written
+//   - typeConsts : the purl type constants of purl/purl.go (string constants named Type<Upper…>)
+//   - validTypes : the VALUES of the keys of the map literal inside purl.validType, as written; when validType is no
+//     longer such a lookup: validTableFound = false and an empty list (the emitted half below does not depend on it)
 //   - emitted    : every purl type reachable from a built-in extractor's ToPURL method — `purl.TypeX`
 //     selectors and string literals / resolvable identifiers in the `Type:` field of PackageURL literals, in
 //     the method body and in every repository function it (transitively) calls; lower-cased here because
@@ -294,39 +295,13 @@ func main() {
 	_ = os.Remove(*out)
 
 	a := &analysis{consts: map[string]string{}, emitted: map[row]bool{}, dynamic: map[[2]string]bool{}, unresolved: map[[2]string]bool{}, visited: map[*ast.FuncDecl]bool{}}
-	// 1. purl/purl.go: validType's keys, and the const block they live in
+	// 1. purl/purl.go: the purl type constants (every string constant named Type<Upper…>; the bare `Type` is the
+	// Maven qualifier key) — independent of how validType is written —, then validType's table IF it still is a
+	// map literal inside the function (otherwise validTableFound = false: C14_types_accepted cannot be stated over the
+	// source any more, and the runtime `accept` stream of c14gen is what names a rejected type)
 	pp := load("purl")
-	var validKeys []string
-	for _, fd := range pp.funcs["validType"] {
-		ast.Inspect(fd.Body, func(n ast.Node) bool {
-			if cl, ok := n.(*ast.CompositeLit); ok {
-				if _, isMap := cl.Type.(*ast.MapType); isMap {
-					for _, el := range cl.Elts {
-						kv, ok := el.(*ast.KeyValueExpr)
-						if !ok {
-							fail("validType: map element without key at %s", a.pos(el))
-						}
-						switch k := kv.Key.(type) {
-						case *ast.Ident:
-							validKeys = append(validKeys, k.Name)
-						case *ast.BasicLit:
-							validKeys = append(validKeys, k.Value) // quoted literal, resolved below
-						default:
-							fail("validType: unsupported key at %s", a.pos(kv.Key))
-						}
-					}
-					return false
-				}
-			}
-			return true
-		})
-	}
-	if len(validKeys) == 0 {
-		fail("purl.validType or its map literal not found (the table moved or changed shape)")
-	}
-	isKey := map[string]bool{}
-	for _, k := range validKeys {
-		isKey[k] = true
+	if len(pp.files) == 0 {
+		fail("purl/purl.go not found")
 	}
 	allConsts := map[string]string{}
 	for _, f := range pp.files {
@@ -335,29 +310,51 @@ func main() {
 			if !ok || gd.Tok != token.CONST {
 				continue
 			}
-			block := map[string]string{}
-			holdsKey := false
 			for _, s := range gd.Specs {
 				vs := s.(*ast.ValueSpec)
 				for i, nm := range vs.Names {
 					if i < len(vs.Values) {
 						if bl, ok := vs.Values[i].(*ast.BasicLit); ok && bl.Kind == token.STRING {
 							v, _ := strconv.Unquote(bl.Value)
-							block[nm.Name] = v
 							allConsts[nm.Name] = v
-							if isKey[nm.Name] {
-								holdsKey = true
+							if len(nm.Name) > 4 && strings.HasPrefix(nm.Name, "Type") && nm.Name[4] >= 'A' && nm.Name[4] <= 'Z' {
+								a.consts[nm.Name] = v
 							}
 						}
 					}
 				}
 			}
-			if holdsKey {
-				for k, v := range block {
-					a.consts[k] = v
+		}
+	}
+	if len(a.consts) < 10 {
+		fail("only %d purl type constants found in purl/purl.go (the layout changed)", len(a.consts))
+	}
+	var validKeys []string
+	tableProblem := ""
+	for _, fd := range pp.funcs["validType"] {
+		ast.Inspect(fd.Body, func(n ast.Node) bool {
+			if cl, ok := n.(*ast.CompositeLit); ok {
+				if _, isMap := cl.Type.(*ast.MapType); isMap {
+					for _, el := range cl.Elts {
+						kv, ok := el.(*ast.KeyValueExpr)
+						if !ok {
+							tableProblem = "map element without key at " + a.pos(el)
+							continue
+						}
+						switch k := kv.Key.(type) {
+						case *ast.Ident:
+							validKeys = append(validKeys, k.Name)
+						case *ast.BasicLit:
+							validKeys = append(validKeys, k.Value) // quoted literal, resolved below
+						default:
+							tableProblem = "unsupported key at " + a.pos(kv.Key)
+						}
+					}
+					return false
 				}
 			}
-		}
+			return true
+		})
 	}
 	var validTypes []string
 	for _, k := range validKeys {
@@ -367,8 +364,15 @@ func main() {
 		} else if v, ok := allConsts[k]; ok {
 			validTypes = append(validTypes, v)
 		} else {
-			fail("validType: key %s is not a string constant of purl.go", k)
+			tableProblem = "key " + k + " is not a string constant of purl.go"
 		}
+	}
+	if len(validKeys) == 0 && tableProblem == "" {
+		tableProblem = "purl.validType has no map literal any more (the accepted-type test moved or changed shape)"
+	}
+	tableFound := tableProblem == ""
+	if !tableFound {
+		validTypes = nil
 	}
 	sort.Strings(validTypes)
 
@@ -439,7 +443,8 @@ func main() {
 		}
 		fmt.Fprintf(&w, "  (%s, %s)%s\n", lq(k), lq(a.consts[k]), sep)
 	}
-	w.WriteString("]\n\n/-- values of the keys of the map literal in purl.validType, as written in the source -/\ndef validTypes : List String := [")
+	fmt.Fprintf(&w, "]\n\n/-- whether purl.validType still is a map-literal lookup the translator can read; if not, `validTypes` is empty,\nC14_types_accepted fails on purpose, and the runtime `accept` stream decides the property -/\ndef validTableFound : Bool := %v\n", tableFound)
+	w.WriteString("\n/-- values of the keys of the map literal in purl.validType, as written in the source -/\ndef validTypes : List String := [")
 	for i, v := range validTypes {
 		if i > 0 {
 			w.WriteString(", ")
@@ -509,6 +514,9 @@ func main() {
 	ptypes := map[string]bool{}
 	for _, r := range rows {
 		ptypes[r.typ] = true
+	}
+	if !tableFound {
+		fmt.Printf("purldump: VALIDTYPE-TABLE-NOT-FOUND: %s\n", tableProblem)
 	}
 	fmt.Printf("purldump: type constants=%d valid types=%d extractor packages=%d ToPURL methods=%d emitted rows=%d distinct emitted types=%d dynamic=%d unresolved=%d nil-only=%d\n",
 		len(cn), len(validTypes), len(rels), nToPURL, len(rows), len(ptypes), len(a.dynamic), len(a.unresolved), len(nilOnly))
